@@ -187,8 +187,14 @@ func (p *Prog) sym(v ssa.Value) *Sym {
 		if d := p.derivedLoad(v); d != nil {
 			return d // a field that caches an option denotes the option (derived.go)
 		}
+		if isHolderField(v.X.Type(), v.Field) {
+			return p.Sym(v.X) // a private struct that only groups fields is transparent (canon.go)
+		}
 		return &Sym{Op: "field", Name: fieldName(v.X.Type(), v.Field), Args: []*Sym{p.Sym(v.X)}}
 	case *ssa.Field:
+		if isHolderField(v.X.Type(), v.Field) {
+			return p.Sym(v.X)
+		}
 		return &Sym{Op: "field", Name: fieldName(v.X.Type(), v.Field), Args: []*Sym{p.Sym(v.X)}}
 	case *ssa.IndexAddr:
 		return &Sym{Op: "index", Args: []*Sym{p.Sym(v.X), p.Sym(v.Index)}}
@@ -264,6 +270,22 @@ func (p *Prog) sym(v ssa.Value) *Sym {
 		return &Sym{Op: "conv", Name: "assert:" + typeShort(v.AssertedType), Args: []*Sym{p.Sym(v.X)}}
 	}
 	return &Sym{Op: "other", Name: fmt.Sprintf("%T:%s", v, v.Name())}
+}
+
+func isHolderField(t types.Type, idx int) bool {
+	if len(canonHolders) == 0 {
+		return false
+	}
+	if pt, ok := t.Underlying().(*types.Pointer); ok {
+		t = pt.Elem()
+	}
+	nt, ok := t.(*types.Named)
+	if !ok {
+		return false
+	}
+	canonMu.Lock()
+	defer canonMu.Unlock()
+	return canonHolders[canonKey{nt.Origin(), idx}]
 }
 
 func fieldName(t types.Type, idx int) string {
